@@ -40,7 +40,11 @@ impl std::fmt::Debug for V2 {
 pub type R<X> = Result<X, Ctl>;
 
 pub fn unsup<X>(s: impl Into<String>) -> R<X> {
-	Err(Ctl::Unsupported(s.into()))
+	let s = s.into();
+	if std::env::var("RSX_TRACE").is_ok() {
+		eprintln!("unsupported: {}\n{}", s, std::backtrace::Backtrace::force_capture());
+	}
+	Err(Ctl::Unsupported(s))
 }
 
 pub struct Frame {
@@ -49,6 +53,7 @@ pub struct Frame {
 	pub tparams: HashMap<String, String>,
 	pub ret_hint: Option<syn::Type>,
 	pub fname: String,
+	pub file: String,
 }
 
 /// one solver-dependent control decision of a run; replayed verbatim when a prefix is re-executed
@@ -250,6 +255,22 @@ impl<'p> Interp<'p> {
 	}
 	pub fn pop_scope(&mut self) {
 		self.frame().scopes.pop();
+	}
+	pub fn cur_file(&self) -> String {
+		self.frames.last().map(|f| f.file.clone()).unwrap_or_default()
+	}
+	/// module-level const by name, preferring the file of the function being executed
+	pub fn find_const(&self, name: &str) -> Option<(syn::Type, syn::Expr)> {
+		if let Some(c) = self.prog.consts_by_file.get(&(self.cur_file(), name.to_string())) {
+			return Some(c.clone());
+		}
+		self.prog.consts.get(name).cloned()
+	}
+	pub fn find_free_fn(&self, name: &str) -> Option<Rc<FnDef>> {
+		if let Some(c) = self.prog.fns_by_file.get(&(self.cur_file(), name.to_string())) {
+			return Some(c.clone());
+		}
+		self.prog.free_fns.get(name).cloned()
 	}
 	pub fn self_ty(&self) -> Option<String> {
 		self.frames.last().and_then(|f| f.self_ty.clone())
@@ -806,7 +827,7 @@ impl<'p> Interp<'p> {
 			syn::ReturnType::Type(_, t) => Some((**t).clone()),
 			_ => None,
 		};
-		self.frames.push(Frame { scopes: vec![HashMap::new()], self_ty: sty, tparams, ret_hint, fname: def.name.clone() });
+		self.frames.push(Frame { scopes: vec![HashMap::new()], self_ty: sty, tparams, ret_hint, fname: def.name.clone(), file: def.file.clone() });
 		self.depth += 1;
 		let r = self.call_body(def, args);
 		self.depth -= 1;
